@@ -81,6 +81,14 @@ def main(argv=None):
     if a.replay:
         with open(a.replay) as f:
             rp = json.load(f)
+        if rp["case"].get("kind") == "impl-raised":
+            # the implementation raised inside a work unit: replay = run the tier again and look for the key
+            ctx = core.Ctx(prop, rp.get("tier", a.tier), rp.get("seed", seed), scratch, a.workers, repo)
+            agg = mod.run(ctx)
+            hit = [v for v in agg.violations if v["key"] == rp.get("key")]
+            print(json.dumps({"property": prop, "key": rp.get("key"), "result": hit[:1]}, indent=1, default=str))
+            print("REPLAY: " + ("violation reproduced" if hit else "no violation"))
+            return 1 if hit else 0
         ctx = core.Ctx(prop, rp.get("tier", a.tier), rp.get("seed", seed), scratch, 1, repo)
         out = mod.run_case(ctx, rp["case"])
         print(json.dumps({"property": prop, "key": rp.get("key"), "result": out}, indent=1, default=str))
